@@ -29,6 +29,16 @@ import (
 	"verif/kit/tree"
 )
 
+// ctlProp is the property the controller part reports under: C18, or one of
+// C01-C06 (whose tree-level checks trust the same model of the pipeline).
+func ctlProp() string {
+	switch p := os.Getenv("VERIF_PROP"); p {
+	case "C01", "C02", "C03", "C04", "C05", "C06":
+		return p
+	}
+	return prop
+}
+
 type ctlScript struct {
 	mu         sync.Mutex
 	phase      int
@@ -140,6 +150,9 @@ func (r *ctlRunner) run(c *rec01.Case) (violation string, nontrivial bool, class
 	if in.Exec != 0 {
 		class += "+one-side-does-not-preserve-executability"
 	}
+	if ctlProp() != prop {
+		return "", len(plan.Alpha)+len(plan.Beta) > 0, class
+	}
 	return "", in.Exec != 0 && len(plan.Alpha)+len(plan.Beta) > 0, class
 }
 
@@ -175,7 +188,7 @@ func TestControllerPipeline(t *testing.T) {
 	if ev.ReplayPath() != "" {
 		t.Skip()
 	}
-	rec := ev.New(t, prop, "controller-pipeline", "rapid: (ancestor, alpha, beta) triples by mutation of a common base, half of them with phantom directories under Docker ignore syntax, two thirds with exactly one endpoint reporting that it does not preserve executability (its snapshot carries no executable bits), x 4 modes, served to the real controller by scripted endpoints after a warm-up cycle that installs the ancestor; the transitions the endpoints receive are compared with reify-phantoms -> propagate-executability -> reconcile computed by the harness's model of the pipeline; non-trivial: one side does not preserve executability and the plan has a transition")
+	rec := ev.New(t, ctlProp(), "controller-pipeline", "rapid: (ancestor, alpha, beta) triples by mutation of a common base, half of them with phantom directories under Docker ignore syntax, two thirds with exactly one endpoint reporting that it does not preserve executability (its snapshot carries no executable bits), x 4 modes, served to the real controller by scripted endpoints after a warm-up cycle that installs the ancestor; the transitions the endpoints receive are compared with reify-phantoms -> propagate-executability -> reconcile computed by the harness's model of the pipeline; non-trivial: one side does not preserve executability and the plan has a transition (under C01-C06: the plan has a transition)")
 	r := newCtlRunner(t)
 	g := tree.DefaultGen
 	g.MaxDepth, g.MaxFan = 3, 3
@@ -191,7 +204,11 @@ func TestControllerPipeline(t *testing.T) {
 			}
 		}
 		in.Mode = rapid.SampledFrom(rec01.Modes).Draw(rt, "mode")
-		if rapid.IntRange(0, 2).Draw(rt, "exec") != 0 {
+		execOdds := 2
+		if ctlProp() != prop {
+			execOdds = 5 // C01-C06: mostly both sides preserve executability
+		}
+		if rapid.IntRange(0, execOdds).Draw(rt, "exec") > execOdds-2 {
 			in.Exec = rapid.IntRange(1, 2).Draw(rt, "exec.side")
 		}
 		if in.Docker && in.Exec != 0 && rapid.IntRange(0, 1).Draw(rt, "unignored-executable") == 0 &&
@@ -262,7 +279,7 @@ func TestReplayController(t *testing.T) {
 	if _, err := ev.LoadReplay(ev.ReplayPath(), &c); err != nil {
 		t.Fatal(err)
 	}
-	rec := ev.New(t, prop, "replay", "replay of a saved case")
+	rec := ev.New(t, ctlProp(), "replay", "replay of a saved case")
 	rec.Eval()
 	r := newCtlRunner(t)
 	if v, _, _ := r.run(&c); v != "" {
